@@ -3,6 +3,7 @@ package c01
 
 import (
 	"fmt"
+	"math"
 	"math/big"
 	"sort"
 	"strings"
@@ -195,7 +196,9 @@ func (m *machine) tssInject(t *rapid.T) {
 	w := m.w
 	ci := rapid.IntRange(0, len(w.Chains)-1).Draw(t, "chain")
 	c := w.Chains[ci]
-	seq := rapid.Uint64Range(1, 4).Draw(t, "seq")
+	// a TSS-attested source numbers its packets itself: small sequences (so that replays meet accepted triples often) and the
+	// limits of the uint64 range
+	seq := rapid.SampledFrom([]uint64{1, 2, 3, 4, 1, 2, 3, 4, 1<<63 - 1, 1 << 63, 1<<63 + 1, math.MaxUint64}).Draw(t, "seq")
 	amt := rapid.Int64Range(1, 50).Draw(t, "amount")
 	recvr := w.Users[rapid.IntRange(0, 1).Draw(t, "receiver")]
 	td := packettypes.TransferData{Token: bridge.TSSOriToken, OriToken: "", Amount: common.LeftPadBytes(big.NewInt(amt).Bytes(), 32), Receiver: strings.ToLower(recvr.Addr.String())}
